@@ -58,6 +58,11 @@ func (r *FunctionData[T]) UpdateData(remoteWrite, persist bool, newData *T, filt
 	defer r.mux.Unlock()
 
 	if filterPartial == nil && filterDelete == nil && persist {
+		// a remote device can not replace items it is not allowed to change
+		if remoteWrite && !model.RemoteFullWriteAllowed(r.data, newData) {
+			return nil, model.NewErrorTypeFromString("update failed, likely not allowed to write")
+		}
+
 		// just set the data
 		r.data = newData
 		return r.data, nil
